@@ -450,7 +450,7 @@ func TestWireReal(t *testing.T) {
 				defer s.Close()
 				limit := 64
 				_ = s.SetOption(mangos.OptionMaxRecvSize, limit)
-				_ = s.SetOption(mangos.OptionRecvDeadline, 3*time.Second)
+				_ = s.SetOption(mangos.OptionRecvDeadline, 10*time.Second)
 				var lo map[string]interface{}
 				if tr.opts != nil {
 					lo = tr.opts(true)
@@ -475,14 +475,14 @@ func TestWireReal(t *testing.T) {
 					if err != nil {
 						panic(err)
 					}
-					o, _ := readN(c, 8, 2*time.Second)
+					o, _ := readN(c, 8, 6*time.Second)
 					r.Emit("hsout", "b", bytesArr(o), "self", int(self), "rerr", "ok")
 					_, _ = c.Write(h)
 					if bi == 0 {
 						stall = c // never completes its handshake; kept open
 						continue
 					}
-					r.Emit("hsreal", "sent", bytesArr(h), "peer", int(peer), "closed", closedWithin(c, 2*time.Second))
+					r.Emit("hsreal", "sent", bytesArr(h), "peer", int(peer), "closed", closedWithin(c, 6*time.Second))
 					c.Close()
 				}
 				// a well-behaved peer: not delayed by the stalled one
@@ -491,7 +491,7 @@ func TestWireReal(t *testing.T) {
 					panic(err)
 				}
 				defer c.Close()
-				o, _ := readN(c, 8, 2*time.Second)
+				o, _ := readN(c, 8, 6*time.Second)
 				r.Emit("hsout", "b", bytesArr(o), "self", int(self), "rerr", "ok")
 				_, _ = c.Write(goodHdr(peer))
 				// frames: in-limit ones are delivered, exactly-at-limit too
@@ -526,14 +526,14 @@ func TestWireReal(t *testing.T) {
 				}
 				big := append(pre, 0, 0, 0, 0, 0, 0, 0, byte(limit+1))
 				_, _ = c.Write(big)
-				r.Emit("oversize", "announced", limit+1, "limit", limit, "closed", closedWithin(c, 2*time.Second))
+				r.Emit("oversize", "announced", limit+1, "limit", limit, "closed", closedWithin(c, 6*time.Second))
 				// the socket still works: another peer gets through
 				c2, err := dialRaw(l.Address(), tr.name)
 				if err != nil {
 					panic(err)
 				}
 				defer c2.Close()
-				_, _ = readN(c2, 8, 2*time.Second)
+				_, _ = readN(c2, 8, 6*time.Second)
 				_, _ = c2.Write(goodHdr(peer))
 				b := body(9)
 				_, _ = c2.Write(frame(ipc, b))
@@ -605,17 +605,17 @@ func TestWireReal(t *testing.T) {
 				if err != nil {
 					panic(err)
 				}
-				o, _ := readN(c, 8, 2*time.Second)
+				o, _ := readN(c, 8, 6*time.Second)
 				r.Emit("hsout", "b", bytesArr(o), "self", int(pn), "rerr", "ok")
 				_, _ = c.Write(goodHdr(0x99))
-				r.Emit("hsreal", "sent", bytesArr(goodHdr(0x99)), "peer", int(peer), "closed", closedWithin(c, 2*time.Second))
+				r.Emit("hsreal", "sent", bytesArr(goodHdr(0x99)), "peer", int(peer), "closed", closedWithin(c, 6*time.Second))
 				c.Close()
 				c, err = nl.Accept()
 				if err != nil {
 					panic(err)
 				}
 				defer c.Close()
-				o, _ = readN(c, 8, 2*time.Second)
+				o, _ = readN(c, 8, 6*time.Second)
 				r.Emit("hsout", "b", bytesArr(o), "self", int(pn), "rerr", "ok")
 				_, _ = c.Write(goodHdr(peer))
 				time.Sleep(50 * time.Millisecond)
@@ -657,7 +657,7 @@ func TestWireReal(t *testing.T) {
 			}()
 			s, _ := pair.NewSocket()
 			defer s.Close()
-			_ = s.SetOption(mangos.OptionRecvDeadline, 3*time.Second)
+			_ = s.SetOption(mangos.OptionRecvDeadline, 10*time.Second)
 			scheme, ws := "ws", "ws"
 			var lo map[string]interface{}
 			if wss {
